@@ -13,6 +13,8 @@ import (
 	"flag"
 	"fmt"
 	"math/big"
+	"os"
+	"runtime/pprof"
 	"sync"
 	"time"
 
@@ -80,6 +82,8 @@ func (e *env) tauInput(rng *gen.Rng, cls string) (alpha, tau *big.Int) {
 		return t, t
 	case "1":
 		return big.NewInt(1), big.NewInt(1)
+	case "0":
+		return big.NewInt(0), big.NewInt(0)
 	case "r-1":
 		t := new(big.Int).Sub(r, one)
 		return t, t
@@ -281,6 +285,12 @@ func runCurve(c *mon.Ctx, in *kzgs.Inst) {
 
 func main() {
 	c := mon.Init("C11")
+	if pf := os.Getenv("C11_CPUPROFILE"); pf != "" { // debugging aid, never set by the driver
+		if f, err := os.Create(pf); err == nil {
+			_ = pprof.StartCPUProfile(f)
+			defer pprof.StopCPUProfile()
+		}
+	}
 	var wg sync.WaitGroup
 	for _, it := range kzgs.All {
 		if !mon.Selected(it.Name) && !selectedPrefix(it.Name) {
@@ -299,5 +309,6 @@ func main() {
 		}()
 	}
 	wg.Wait()
+	pprof.StopCPUProfile()
 	c.Finish()
 }
